@@ -7,7 +7,7 @@ Import ListNotations.
 (** The general theorems below hold whatever the switches read from the Rust text (Gen/Params.v)
     say; only the closed witnesses of Part 5 compute with their current values. *)
 Local Opaque query_not_leaf_complement query_u64_neg_rejects_all query_i64_buffer_claims_all
-  query_mem_f64_view query_none_no_zones_temporal query_none_no_zones_enum query_none_no_zones_zonexor
+  query_mem_f64_view query_unserved_no_zones_temporal query_unserved_no_zones_enum query_unserved_no_zones_zonexor
   query_hydrate_tagged_only query_bool_block_str_view.
 
 (** * Part 1 — zone sets *)
